@@ -657,3 +657,30 @@ pub fn spec_static_name_is(i: usize, name: &[u8]) -> bool {
 /// (kaniA) The N-th reserved identifier, in 128-bit arithmetic so the spec itself cannot overflow:
 /// RFC 9114 "0x1f * N + 0x21 for non-negative integer values of N".  `spec_is_grease(x)` <=> exists N.
 pub fn spec_grease_nth(n: u64) -> u128 { 0x1f * (n as u128) + 0x21 }
+
+// ---- (coordinator) the closed-form renderings used by the Verus units (units/inc/vdec.rs `vdec`, units/inc/venc.rs `venc`),
+// as executable text; harness c16_spec_renderings_agree proves them equal to the loop forms above on the full domain
+pub fn spec_varint_dec_horner(s: &[u8]) -> Option<(u64, usize)> {
+    if s.is_empty() { return None; }
+    let b0 = s[0] as u64;
+    if b0 < 64 { Some((b0, 1)) }
+    else if b0 < 128 { if s.len() < 2 { None } else { Some(((b0 - 64) * 256 + s[1] as u64, 2)) } }
+    else if b0 < 192 {
+        if s.len() < 4 { None } else { Some(((((b0 - 128) * 256 + s[1] as u64) * 256 + s[2] as u64) * 256 + s[3] as u64, 4)) }
+    } else if s.len() < 8 { None } else {
+        Some(((((((((b0 - 192) * 256 + s[1] as u64) * 256 + s[2] as u64) * 256 + s[3] as u64) * 256 + s[4] as u64) * 256
+            + s[5] as u64) * 256 + s[6] as u64) * 256 + s[7] as u64, 8))
+    }
+}
+pub fn spec_varint_enc_div(x: u64) -> ([u8; 8], usize) {
+    let mut o = [0u8; 8];
+    if x < 64 { o[0] = x as u8; (o, 1) }
+    else if x < 16384 { o[0] = (64 + x / 256) as u8; o[1] = (x % 256) as u8; (o, 2) }
+    else if x < 1073741824 {
+        o[0] = (128 + x / 16777216) as u8; o[1] = ((x / 65536) % 256) as u8; o[2] = ((x / 256) % 256) as u8; o[3] = (x % 256) as u8; (o, 4)
+    } else {
+        o[0] = (192 + x / 72057594037927936) as u8; o[1] = ((x / 281474976710656) % 256) as u8; o[2] = ((x / 1099511627776) % 256) as u8;
+        o[3] = ((x / 4294967296) % 256) as u8; o[4] = ((x / 16777216) % 256) as u8; o[5] = ((x / 65536) % 256) as u8;
+        o[6] = ((x / 256) % 256) as u8; o[7] = (x % 256) as u8; (o, 8)
+    }
+}
